@@ -9,4 +9,4 @@ CONSTANTS
   MaxSets = 0
   WMax = 6
   TMax = 8
-INVARIANT EmitTree
+INVARIANT EmitSlots
